@@ -1787,6 +1787,11 @@ static void fam_c07_random(G& g, Plan& p) {
 // ---------------------------------------------------------------------------------
 static void fam_c14_arena(G& g, Plan& p) {
   size_t B = g.pick<size_t>({40, 64, 66, 70, 128, 130});       // 64 / 128: the last bitmap field is full to its last bit
+  // giant: an arena of 4-6 bitmap fields and objects of more than 64 blocks (2 GiB), whose claims span three or more fields (the
+  // intermediate fields are taken and rolled back whole)
+  const bool giant = g.chance(0.15);
+  if (giant) { B = g.pick<size_t>({200, 256, 260, 330}); p.cfg.wall_limit_s = 120; }
+  int ngiant[8] = {0, 0, 0, 0, 0, 0, 0, 0};
   long delay = g.pick({0, 1, 10, 10, -1});
   set_env(p, "PURGE_DELAY", delay); set_env(p, "ARENA_PURGE_MULT", g.pick({1, 10}));
   int nt = 2 + (int)g.below(3);
@@ -1798,10 +1803,14 @@ static void fam_c14_arena(G& g, Plan& p) {
     if (g.chance(0.5)) p.cfg.hot_funcs = {"os_call", "_mi_arena_free", "mi_arena_schedule_purge", "mi_arena_purge", "mi_arena_try_purge", "_mi_bitmap_unclaim_across", "mi_arena_try_alloc_at", "_mi_bitmap_try_claim", "mi_arenas_try_purge"};
     else { p.cfg.hot_funcs = {"mi_bitmap_try_find_claim_field_across", "_mi_bitmap_try_find_from_claim_across", "_mi_bitmap_try_find_claim_field", "_mi_bitmap_unclaim_across", "mi_bitmap_mask_across"}; p.cfg.hold_steps = g.pick<uint64_t>({0, 50, 500}); }   // the claim / roll-back sequences of the bitmap itself
   }
+  if (giant && g.chance(0.7)) {   // two giant claims over the same fields at once: one is stalled inside its claim / roll-back while the other completes a whole allocate-and-free
+    p.cfg.strategy = ST_TARGETED; p.cfg.hot_p = g.pick({0.3, 0.7}); p.cfg.switch_p = 0.0; p.cfg.hold_steps = g.pick<uint64_t>({300, 2000, 10000});
+    p.cfg.hot_funcs = {"mi_bitmap_try_find_claim_field_across", "_mi_bitmap_try_find_from_claim_across", "_mi_bitmap_unclaim_across", "mi_bitmap_mask_across"};
+  }
   {
     uint64_t d = 0;
-    if (g.chance(0.15)) { d = g.chance(0.5) ? 1 : (2 | (g.chance(0.3) ? 4 : 0) | (g.chance(0.3) ? 8 : 0)); if (g.chance(0.85)) p.cfg.hugetlb = 2; if (d == 1) set_env(p, "ALLOW_LARGE_OS_PAGES", 1); }   // pinned arena of large / huge OS pages
-    P0.ops.push_back(mk(OP_reserve_arena, 0, B * 32 * MiB, g.below(2), 1 /*exclusive*/, d));
+    if (!giant && g.chance(0.15)) { d = g.chance(0.5) ? 1 : (2 | (g.chance(0.3) ? 4 : 0) | (g.chance(0.3) ? 8 : 0)); if (g.chance(0.85)) p.cfg.hugetlb = 2; if (d == 1) set_env(p, "ALLOW_LARGE_OS_PAGES", 1); }   // pinned arena of large / huge OS pages
+    P0.ops.push_back(mk(OP_reserve_arena, 0, B * 32 * MiB, giant ? 0 : g.below(2), 1 /*exclusive*/, d));
   }
   for (int t = 1; t < nt; t++) P0.ops.push_back(mk(OP_spawn, t));
   for (int t = 0; t < nt; t++) {
@@ -1815,7 +1824,8 @@ static void fam_c14_arena(G& g, Plan& p) {
       else if (k < 52) P.ops.push_back(mk(OP_collect, -1, 0));
       else {
         int c = (int)g.below(10); if (B > 64 && g.chance(0.3)) c = 9; size_t sz = c < 4 ? 17 * MiB + g.below(10 * MiB) : c < 6 ? 40 * MiB + g.below(20 * MiB) : 70 * MiB + g.below(130 * MiB);
-        Op o = mk(OP_malloc, slot, sz); o.hslot = 0; o.flags = OPF_MAY_FAIL; P.ops.push_back(o);
+        if (giant && ngiant[t] < 4 && g.chance(t < 2 ? 0.5 : 0.1)) { sz = (65 + g.below(90)) * 32 * MiB - g.below(16 * MiB); ngiant[t]++; }
+        Op o = mk(OP_malloc, slot, sz); o.hslot = 0; o.flags = OPF_MAY_FAIL | (sz > 512 * MiB ? OPF_NO_FILL : 0); P.ops.push_back(o);
       }
     }
   }
